@@ -279,6 +279,19 @@ pub fn run(args: &Args, mut out: Out) {
                 }
             }
             client.set_nonblocking(false).unwrap();
+            // ... and, so that the close is not a reset in the first place, the server's end first takes what is left unread
+            // in its kernel queue (the late body bytes arrived in one segment with the byte the server did read, so they are
+            // all there).  The state of the `HttpConn` is not looked at any more.
+            {
+                use futures_lite::AsyncReadExt;
+                let mut sink = [0u8; 4096];
+                for _ in 0..64 {
+                    let got_some = futures_lite::future::block_on(futures_lite::future::poll_once(conn.stream.read(&mut sink)));
+                    if !matches!(got_some, Some(Ok(n)) if n > 0) {
+                        break;
+                    }
+                }
+            }
         }
         drop(conn);
         let _ = client.read_to_end(&mut got);
